@@ -389,3 +389,12 @@ def lemmas(ctx):
     ctx.ob("mixing/induction-step", "lemma",
            [W > 0, wk > 0, lo <= Tm, Tm <= hi, lo <= tk, tk <= hi, W * (Tm - Tn2) + wk * (tk - Tn2) == 0],
            z3.And(lo <= Tn2, Tn2 <= hi))
+
+
+# ---------------------------------------------------------------------------------------------
+# assembly of the thermal rows into the linear system (engine E3, shared with C01)
+
+@unit("C10", "matrix/thermal", functions=["pandapipes.pf.build_system_matrix:build_system_matrix"], engine="E3")
+def matrix_thermal(ctx):
+    from contracts.C01 import thermal_matrix
+    thermal_matrix(ctx)
